@@ -71,7 +71,7 @@ PLAN = {
     "C13": (["radix+format", "format", "compact+radix+format"], ["pow2+format", "compact+format"]),
     "C14": (["default", "compact", "radix+format"], ["pow2", "radix", "compact+radix+format", "format"]),
     "C15": (["default", "format", "radix+format", "compact+radix+format"], ["compact", "radix", "pow2+format"]),
-    "C16": (["default", "nostd", "compact", "pow2", "radix", "format", "radix+format", "compact+radix+format"], ["compact+format", "pow2+format", "compact+pow2", "compact+radix", "compact+pow2+format", "compact+nostd", "pow2+nostd", "radix+nostd", "format+nostd", "compact+format+nostd", "pow2+format+nostd", "radix+format+nostd", "compact+pow2+nostd", "compact+radix+nostd", "compact+pow2+format+nostd", "compact+radix+format+nostd"]),
+    "C16": (["default", "nostd", "compact", "compact+nostd", "pow2", "radix", "format", "radix+format", "compact+radix+format"], ["compact+format", "pow2+format", "compact+pow2", "compact+radix", "compact+pow2+format", "pow2+nostd", "radix+nostd", "format+nostd", "compact+format+nostd", "pow2+format+nostd", "radix+format+nostd", "compact+pow2+nostd", "compact+radix+nostd", "compact+pow2+format+nostd", "compact+radix+format+nostd"]),
     "C17": (["default", "radix+format", "compact+radix+format"], ["compact", "pow2", "format", "radix", "nostd"]),
     "C18": (["default", "pow2", "radix", "format", "radix+format"], ["compact+radix+format", "pow2+format", "nostd"]),
     "C19": (["default", "compact", "radix", "compact+radix+format"], ["pow2", "format", "compact+radix", "radix+format"]),
